@@ -28,13 +28,18 @@ POOL_CAP = 32
 
 
 def observe(v, deep=True):
+    # repr, runs and cells are read before AND after the views that are memoised on first use (terminal string, hash,
+    # length, width): computing those must not change what the value is
+    before = (repr(v), tuple(cells(v)), tuple((c.s, tuple(sorted(c.atts.items()))) for c in v.chunks))
     w, e = call(lambda: v.width)
     ln, e2 = call(lambda: len(v))
     displays = True
     if deep and "\x1b" not in v.s and "\x9b" not in v.s:
         displays = sgr.interpret(str(v))[0] == cells(v)
-    return (v.s, ("exc", type(e2).__name__) if e2 is not None else ln, ("exc", type(e).__name__) if e is not None else w, str(v), repr(v),
-            tuple(cells(v)), hash(v) == hash(str(v)), displays)
+    out = (v.s, ("exc", type(e2).__name__) if e2 is not None else ln, ("exc", type(e).__name__) if e is not None else w, str(v), repr(v),
+           tuple(cells(v)), hash(v) == hash(str(v)), displays)
+    after = (repr(v), tuple(cells(v)), tuple((c.s, tuple(sorted(c.atts.items()))) for c in v.chunks))
+    return out + (before == after,)
 
 
 def snapshot_of(v):
@@ -107,8 +112,11 @@ def run_case(case):
             if e is not None:
                 res.viol("observation_raised", step=step, op=op, pool_index=i, error=exc_str(e))
                 return False
+            if not now[-1]:
+                res.viol("observing_the_value_changed_it", step=step, op=op, pool_index=i, detail="repr / runs / cells differ before and after str(), hash(), len(), width", case=case)
+                return False
             if now != snap:
-                which = [n for n, a, b in zip(("s", "len", "width", "str", "repr", "cells", "hash_is_hash_of_str", "str_displays_cells"), now, snap) if a != b]
+                which = [n for n, a, b in zip(("s", "len", "width", "str", "repr", "cells", "hash_is_hash_of_str", "str_displays_cells", "stable_under_observation"), now, snap) if a != b]
                 res.viol("value_changed_or_stale_cache", step=step, op=op, pool_index=i, differs=which,
                          now=[repr(x)[:80] for x in now[:5]], was=[repr(x)[:80] for x in snap[:5]], case=case)
                 return False
